@@ -28,6 +28,7 @@ import jsonpath_rfc9535 as jp
 from gen import docs as D
 
 from . import golden
+from . import sched
 from . import seeds
 from . import world
 
@@ -233,7 +234,8 @@ class Machine:
         q = op["q"]
         envspec = copy.deepcopy(e["spec"])
         try:
-            c = jp.compile(q) if envspec.get("module") else e["obj"].compile(q)
+            with sched.in_library():
+                c = jp.compile(q) if envspec.get("module") else e["obj"].compile(q)
             exc = None
         except Exception as exc_:  # noqa: BLE001
             c, exc = None, type(exc_).__name__
@@ -256,7 +258,8 @@ class Machine:
         d = self.docs[did]
         obj = copy.deepcopy(d["obj"]) if use_copy else d["obj"]
         before = self._fired()
-        obs = world.outcome_of_call(lambda: world.call(env, compiled, q, obj, entry, form), entry, obj)
+        with sched.in_library():
+            obs = world.outcome_of_call(lambda: world.call(env, compiled, q, obj, entry, form), entry, obj)
         if use_copy and D.snapshot(obj) != d["snap"]:
             self._violate("doc-mutated", f"{what}: the (copied) document was modified by the call")
         faulted = self._fired() != before
@@ -310,7 +313,8 @@ class Machine:
         gspec = {"env": self._env_golden_spec(envspec), "q": q, "doc": d["spec"], "entry": "finditer", "form": form}
         rec = {"spec": gspec, "nondet": self._is_nondet(envspec), "got": [], "state": "live", "doc": op["doc"], "q": q, "it": None, "faulted": False, "threads": set()}
         try:
-            rec["it"] = iter(thunk())
+            with sched.in_library():
+                rec["it"] = iter(thunk())
         except Exception as exc:  # noqa: BLE001
             # finditer on an environment compiles first: an invalid query surfaces here
             rec["state"] = "raised"
@@ -359,7 +363,8 @@ class Machine:
         try:
             for _ in range(op.get("n", 1)):
                 try:
-                    node = next(rec["it"])
+                    with sched.in_library():
+                        node = next(rec["it"])
                 except StopIteration:
                     end = "stop"
                     break
@@ -394,7 +399,8 @@ class Machine:
         try:
             close = getattr(rec["it"], "close", None)
             if close is not None:
-                close()
+                with sched.in_library():
+                    close()
         except Exception as exc:  # noqa: BLE001
             self._violate("close-raised", f"closing iterator {op['it']} raised {type(exc).__name__}")
         rec["state"] = "closed"
